@@ -639,6 +639,24 @@ func unaryCutPhase(e *core.Env, sigPrefix string, n int) {
 				}
 			}
 		}
+		// a reply that arrives in full but is not a message at all (wrong type, garbage): an error, not a message
+		for gi, garbage := range [][]byte{[]byte("\xff\xff\xff\xff\xff\xff\xff\xff\xff\xff\x01"), []byte("<html>not a message</html>"), {0x0a, 0x7f, 'x'}} {
+			ch := &httpgrpc.Channel{BaseURL: mustURL("http://ucut.test/"), Transport: rtFunc(func(rq *http.Request) (*http.Response, error) {
+				h := http.Header{}
+				h.Set("Content-Type", httpgrpc.UnaryRpcContentType_V1)
+				return &http.Response{StatusCode: 200, Header: h, Body: io.NopCloser(bytes.NewReader(garbage)), ContentLength: int64(len(garbage)), Request: rq, ProtoMajor: 1, ProtoMinor: 1}, nil
+			})}
+			out := new(tpb.Message)
+			var err error
+			pan := guard(func() { err = ch.Invoke(context.Background(), Unary.Method(), &tpb.Message{}, out) })
+			e.Eval(fmt.Sprintf("unary-garbage|%d", gi), true)
+			w := map[string]any{"body": fmt.Sprintf("%q", garbage), "client_err": fmt.Sprint(err), "got": msgDesc(out)}
+			if pan != "" {
+				e.Violate(sigPrefix+"/unary-cut/panic", trunc(pan, 400), w)
+			} else if err == nil {
+				e.Violate(sigPrefix+"/unary-cut/undecodable-as-success", fmt.Sprintf("the unary reply body %q is not a message; Invoke returned nil with message {%s}", garbage, msgDesc(out)), w)
+			}
+		}
 	})
 }
 
